@@ -15,3 +15,11 @@ func contractAlphabet(w *world.World) []chainsim.Action {
 		call(w, "c0", "faucetsc", "nosuchfunction", nil, 5, 10, ""),
 	}
 }
+
+// failingAlphabet: calls that fail after the contract already wrote state / queued transfers.
+func failingAlphabet(w *world.World) []chainsim.Action {
+	return []chainsim.Action{
+		call(w, "c0", "faucetsc", "refill", nil, 0, 7, "-zero"),
+		call(w, "c2", "faucetsc", "update-settings", map[string]any{"fields": map[string]string{"pour_amount": "1"}}, 0, 5, "-notowner"),
+	}
+}
